@@ -6,6 +6,7 @@ import (
 	txfile "github.com/elastic/go-txfile"
 
 	"verif/core"
+	"verif/simdisk"
 )
 
 // C14: changing the maximum size on open.
@@ -14,6 +15,7 @@ type resizeSpec struct {
 	OldPages, NewPages int // 0 = unbounded
 	NewOdd             int
 	Prealloc           bool
+	Fault              *simdisk.Fault `json:"fault,omitempty"`
 }
 
 func (w *World) pageBytes(n int) uint64 { return uint64(n) * uint64(w.Cfg.PageSize) }
@@ -40,6 +42,50 @@ func (w *World) reopenResized(rs resizeSpec) bool {
 		w.NoCoverage = true
 	}
 	w.tracef("reopen-resize old=%d new=%d odd=%d prealloc=%v", rs.OldPages, rs.NewPages, rs.NewOdd, rs.Prealloc)
+	if rs.Fault != nil {
+		// an I/O fault during the resizing Open: Open may fail (then the path must
+		// be unlocked and a fault free retry must succeed) or succeed (the
+		// optional clean-up transaction is allowed to fail); in both cases the
+		// usual oracles of Open apply afterwards (lock idle, contents == model).
+		w.Disk.SetFaults([]simdisk.Fault{*rs.Fault})
+		opts := w.Cfg.Options()
+		opts.Observer = w.Obs
+		w.OpenOpts(&opts)
+		var f *txfile.File
+		var err error
+		w.Disk.Reopenable()
+		if w.guard("Open(resize, faulty)", func() { f, err = txfile.VerifOpenWith(w.Disk, opts, w.Hook) }) {
+			return false
+		}
+		injected := w.Disk.Injected()
+		w.Disk.ClearFaults()
+		if err == nil {
+			w.Res.Add("faulty_resize_open_succeeded", 1)
+			if injected > 0 {
+				w.Res.Add("faulty_resize_open_succeeded_with_injected_fault", 1)
+			}
+			// hand over to the normal path: close again and reopen without fault
+			shared, pending, resFree := f.VerifLockState()
+			if shared != 0 || pending || !resFree {
+				w.violate("lock-leak", fmt.Sprintf("lock-leak:open-faulty:shared=%d,pending=%v,reservedFree=%v", shared, pending, resFree),
+					"Open (resize) hit an injected I/O fault in its maintenance transactions and returned a File with lock state shared=%d pending=%v reservedFree=%v", shared, pending, resFree)
+				return false
+			}
+			if w.guard("File.Close", func() { err = f.Close() }) {
+				return false
+			}
+		} else {
+			w.Res.Add("faulty_resize_open_failed", 1)
+			if injected == 0 {
+				w.violate("open-failed", "open-failed:"+allKinds(err), "resizing Open failed without injected fault: %v", err)
+				return false
+			}
+			if w.Disk.Locked() || !w.Disk.Closed() {
+				w.violate("open-fail-lock", "open-fail-lock", "failed Open left the path locked=%v closed=%v", w.Disk.Locked(), w.Disk.Closed())
+				return false
+			}
+		}
+	}
 	ok := w.Open()
 	w.OpenOpts = nil
 	return ok
@@ -60,6 +106,14 @@ func runResizeCase(c *core.Case) *core.Result {
 	}
 	if rs.NewPages > 0 && r.Chance(1, 3) {
 		rs.NewOdd = 1 + r.Intn(int(cfg.PageSize)-1)
+	}
+	if r.Chance(1, 3) {
+		kinds := []simdisk.IOKind{simdisk.KWrite, simdisk.KSync, simdisk.KSync, simdisk.KMMap, simdisk.KTruncate, simdisk.KSize}
+		rs.Fault = &simdisk.Fault{Kind: kinds[r.Intn(len(kinds))], Index: r.Intn(5), Burst: 1 + r.Intn(2)}
+		if shrinking := rs.NewPages > 0 && (rs.OldPages == 0 || rs.NewPages < rs.OldPages); shrinking && r.Chance(2, 3) {
+			// aim at the second (optional) maintenance transaction of a shrink
+			rs.Fault = &simdisk.Fault{Kind: []simdisk.IOKind{simdisk.KWrite, simdisk.KSync}[r.Intn(2)], Index: 1 + r.Intn(3), Burst: 1}
+		}
 	}
 	cfg.MaxPages = rs.OldPages
 	cfg.InitMetaArea = []uint32{0, 0, 2, 8}[r.Intn(4)]
